@@ -271,7 +271,20 @@ class SymInt:
         raise Undecided("a symbolic integer is used as an index / range bound / format argument")
 
     def __int__(self):
-        raise Undecided("int() of a symbolic integer outside the patched namespace")
+        # reached only through %i / %d formatting of messages (int() itself is patched in analysed namespaces):
+        # a witness value consistent with the path condition is good enough for a message
+        c = Ctx.cur
+        if c is None:
+            raise Undecided("int() of a symbolic integer outside an exploration")
+        s_ = z3.Solver()
+        s_.set("timeout", 500)
+        s_.add(c.pc())
+        if s_.check() == z3.sat:
+            v = s_.model().eval(self.t, model_completion=True)
+            if z3.is_int_value(v):
+                c.__dict__["display_concretisations"] = c.__dict__.get("display_concretisations", 0) + 1
+                return v.as_long()
+        return 0
 
     def __repr__(self):
         return "SymInt(%s)" % self.t
